@@ -217,12 +217,7 @@ def lattice_contract(refprog, ctx, rels, functors):
         lc = getattr(info, "lattice_cols", [])
         if not lc:
             continue
-        if len(lc) != 1:
-            raise EngineError("more than one lattice column")
-        col = lc[0]
-        keycols = [i for i in range(info.arity) if i != col]
-        spec = refprog.lattices[info.type_names[col]]
-        lub = functors[spec["Lub"].name]
+        keycols = [i for i in range(info.arity) if i not in lc]
         r = rels[name]
         items = r.items()
         for i in range(len(items)):
@@ -232,21 +227,24 @@ def lattice_contract(refprog, ctx, rels, functors):
                 diffs.append(("%s:one-tuple-per-key" % name, g_and(g1, g2, agree)))
         d = _derivable(refprog, ctx, rels, name, functors)
         ditems = d.items()
-        for t, g in items:
-            join, defined = None, False
-            for dt, dg in ditems:
-                m = g_and(dg, *[uni.eq(t[c], dt[c]) for c in keycols])
-                if m is False:
-                    continue
+        for col in lc:
+            spec = refprog.lattices[info.type_names[col]]
+            lub = functors[spec["Lub"].name]
+            for t, g in items:
+                join, defined = None, False
+                for dt, dg in ditems:
+                    m = g_and(dg, *[uni.eq(t[c], dt[c]) for c in keycols])
+                    if m is False:
+                        continue
+                    if join is None:
+                        join, defined = dt[col], m
+                    else:
+                        join = sym.v_ite(m, sym.v_ite(defined, lub(join, dt[col]), dt[col]), join)
+                        defined = g_or(defined, m)
                 if join is None:
-                    join, defined = dt[col], m
+                    diffs.append(("%s:value-is-join-of-derivable" % name, g))
                 else:
-                    join = sym.v_ite(m, sym.v_ite(defined, lub(join, dt[col]), dt[col]), join)
-                    defined = g_or(defined, m)
-            if join is None:
-                diffs.append(("%s:value-is-join-of-derivable" % name, g))
-            else:
-                diffs.append(("%s:value-is-join-of-derivable" % name, g_and(g, g_or(g_not(defined), g_not(uni.eq(t[col], join))))))
+                    diffs.append(("%s:value-is-join-of-derivable" % name, g_and(g, g_or(g_not(defined), g_not(uni.eq(t[col], join))))))
         for dt, dg in ditems:
             present = g_or(*[g_and(g, *[uni.eq(t[c], dt[c]) for c in keycols]) for t, g in items])
             diffs.append(("%s:derivable-key-present" % name, g_and(dg, g_not(present))))
